@@ -82,6 +82,8 @@ func run(c *checks.Ctx) (code int) {
 		err = checks.RunC03(c)
 	case "C16":
 		err = checks.RunC16(c)
+	case "C17":
+		err = checks.RunC17(c)
 	default:
 		fmt.Println("unknown property", c.Prop)
 		return checks.ExitHarness
